@@ -20,7 +20,8 @@ def scratch():
 
 
 def run(pid, repo, seed="1"):
-    env = dict(os.environ, VERIF_REPO=repo, VERIF_SEED=seed, VERIF_SENS="1")
+    out = os.path.join(os.path.dirname(repo), "out")  # evidence/replays of mutant runs die with the scratch dir
+    env = dict(os.environ, VERIF_REPO=repo, VERIF_SEED=seed, VERIF_SENS="1", VERIF_OUT_DIR=out)
     t = time.time()
     p = subprocess.run([os.path.join(VERIF, "check"), pid, "--tier", "quick"], env=env, capture_output=True, text=True, cwd=VERIF)
     return p.returncode, time.time() - t, (p.stdout + p.stderr)[-600:]
